@@ -156,6 +156,26 @@ fn exec_c<C: Suite>(scen: &Scenario) -> Exec {
             return Exec::Violation(viol("C03.signer_signed_below_threshold", format!("sign() produced a share for a package with {k} < t = {t} participants")), rep);
         }
         rep.probe("signer_refused");
+        // the same refusal through every other signing entry point (suite crate's own sign, re-randomised with a seed and with an
+        // explicit randomiser, Taproot with a tweak)
+        let seed32 = [0x5au8; 32];
+        let rz = frost_rerandomized::Randomizer::<C>::from_scalar(sc_from_u64::<C>(7));
+        #[allow(deprecated)]
+        let mut others: Vec<(&str, bool)> = vec![
+            ("suite crate round2::sign", C::w_sign(&small_pkg, &nonces[j], kp).is_ok()),
+            ("sign_with_randomizer_seed", C::w_rr_sign(&small_pkg, &nonces[j], kp, &seed32).is_ok()),
+            ("frost_rerandomized::sign", frost_rerandomized::sign(&small_pkg, &nonces[j], kp, rz).is_ok()),
+        ];
+        if C::IS_TR {
+            others.push(("sign_with_tweak(None)", C::sign_with_tweak(&small_pkg, &nonces[j], kp, None).is_ok()));
+            others.push(("sign_with_tweak(root)", C::sign_with_tweak(&small_pkg, &nonces[j], kp, Some(&[3u8; 32])).is_ok()));
+        }
+        for (ename, signed) in others {
+            rep.evaluations += 1;
+            if signed {
+                return Exec::Violation(viol("C03.signer_signed_below_threshold", format!("{ename} produced a share for a package with {k} < t = {t} participants")), rep);
+            }
+        }
     }
     // coalition members with lowered thresholds do sign; the coordinator (honest public key package) must refuse
     let mut lowered_shares = BTreeMap::new();
